@@ -111,4 +111,36 @@ theorem foldl_min_eq_minOver (f : Rat → Rat) : ∀ (ys : List Rat) (y0 : Rat),
       | cons c l ihl => intro a b; simp only [List.foldl_cons]; rw [min_assoc, ihl]
     exact key _ _ _
 
+/-- row minima of a matrix whose rows are `g x` over a non-empty list -/
+theorem minAxis1_map (g : Rat → Rat → Rat) (xs : List Rat) (y0 : Rat) (ys : List Rat) :
+    minAxis1 (xs.map fun x => (y0 :: ys).map (g x)) = .ok (xs.map fun x => Mir.Boundary.minOver (g x) y0 ys) := by
+  unfold minAxis1
+  rw [PyMP.mapPy_ok _ (fun row => (minList row).getD 0)]
+  · rw [List.map_map]
+    congr 1
+    apply List.map_congr_left
+    intro x _
+    simp only [Function.comp, List.map_cons, minList, Option.getD_some]
+    exact foldl_min_eq_minOver (g x) ys y0
+  · intro row hrow
+    obtain ⟨x, _, rfl⟩ := List.mem_map.1 hrow
+    simp [minList]
+
+theorem heads_outer (g : Rat → Rat → Rat) (y : Rat) (ys : List Rat) : ∀ xs : List Rat,
+    List.filterMap List.head? (xs.map fun x => g x y :: ys.map (g x)) = xs.map fun x => g x y
+  | [] => rfl
+  | a :: t => by simp only [List.map_cons, List.filterMap_cons, List.head?_cons, heads_outer g y ys t]
+
+theorem tails_outer (g : Rat → Rat → Rat) (y : Rat) (ys : List Rat) : ∀ xs : List Rat,
+    (xs.map fun x => g x y :: ys.map (g x)).map List.tail = xs.map fun x => ys.map (g x)
+  | [] => rfl
+  | a :: t => by simp only [List.map_cons, List.tail_cons, tails_outer g y ys t]
+
+/-- the columns of an outer table are the rows of the transposed table -/
+theorem columns_outer (g : Rat → Rat → Rat) (xs : List Rat) : ∀ ys : List Rat,
+    columns (xs.map fun x => ys.map (g x)) ys.length = ys.map fun y => xs.map fun x => g x y
+  | [] => rfl
+  | y :: ys => by
+    simp only [List.length_cons, columns, List.map_cons, heads_outer, tails_outer, columns_outer g xs ys]
+
 end Mir.PyEG
